@@ -20,6 +20,7 @@ import EaselModel.Sqio.EmblAll
 import EaselModel.Sqio.FileWindows
 import EaselModel.Sqio.EmblWin
 import EaselModel.Sqio.RevWindowGeo
+import EaselModel.Sqio.TrackerExact
 /-! # C04 — all ways of reading a sequence file agree with each other and with the file
 
 Property theorems only (proofs are glue on `Sqio/Windows.lean`, `Sqio/Refine.lean`, `Sqio/Spec.lean`).
@@ -749,5 +750,92 @@ theorem readWindow_readBlock_linebased_block_size_independent (a1 a2 : Ascii) (h
       LSim (readBlock a1 b maxRes maxSeq maxInit false).1 (readBlock a2 b maxRes maxSeq maxInit false).1) :=
   ⟨fun sq C W hW => EmblWin.readWindow_fwd_linebased_block_size_independent a1 a2 sq C W h hf hW,
    fun b maxRes maxSeq maxInit => EmblWin.readBlock_short_linebased_block_size_independent a1 a2 b maxRes maxSeq maxInit h hf⟩
+
+/-! ## The line-geometry tracker of `seebuf`: the EXACT predicate `bpl, rpl > 0` guarantees
+
+The reverse-window theorems `rev_window_eq_revcomp_slice_line` / `_residue` assume the geometry that `bpl, rpl > 0` is meant to promise.
+What the tracker really promises is characterised here by an `iff` for every scan of whole records (`Tracker.events`: a header event per
+record, one end-of-line event per terminated line with that line's bytes and residues): a *pair* is two consecutive terminated lines of
+the same record; `allPairs` lists them in file order. -/
+section tracker
+open EaselModel.Sqio.Tracker EaselModel.Sqio.TrackerExact
+
+/-- **`rpl = p > 0` after a scan ⇔ there is a pair, every pair's first line has exactly `p` residues, and every pair but the first of the
+    scan has a second line of at most `p` residues.** Nothing else: the second line of the first pair (where `rpl` is initialised) and the
+    only line of a one-line record are unconstrained — the known finding, as the exact boundary of what is guaranteed. -/
+theorem tracker_rpl_iff (recs : List (List (Int × Int))) (p : Int) (hp : 0 < p) (h : ∀ ls ∈ recs, ∀ l ∈ ls, 0 ≤ l.2) :
+    (run {} (events recs)).rpl = p ↔
+      ∃ q rest, allPairs (recs.map (·.map Prod.snd)) = q :: rest ∧ q.1 = p ∧ ∀ x ∈ rest, x.1 = p ∧ x.2 ≤ p := by
+  rw [run_rpl_closed recs {} h]
+  refine feed_unset_iff _ p hp (allPairs_nonneg _ ?_)
+  intro ds hds d hd
+  obtain ⟨ls, hls, rfl⟩ := List.mem_map.mp hds
+  obtain ⟨l, hl, rfl⟩ := List.mem_map.mp hd
+  exact h ls hls l hl
+
+/-- the same for bytes per line -/
+theorem tracker_bpl_iff (recs : List (List (Int × Int))) (p : Int) (hp : 0 < p) (h : ∀ ls ∈ recs, ∀ l ∈ ls, 0 ≤ l.1) :
+    (run {} (events recs)).bpl = p ↔
+      ∃ q rest, allPairs (recs.map (·.map Prod.fst)) = q :: rest ∧ q.1 = p ∧ ∀ x ∈ rest, x.1 = p ∧ x.2 ≤ p := by
+  rw [run_bpl_closed recs {} h]
+  refine feed_unset_iff _ p hp (allPairs_nonneg _ ?_)
+  intro ds hds d hd
+  obtain ⟨ls, hls, rfl⟩ := List.mem_map.mp hds
+  obtain ⟨l, hl, rfl⟩ := List.mem_map.mp hd
+  exact h ls hls l hl
+
+/-- `rpl` stays unset (`−1`) ⇔ no record of the scan has two terminated lines -/
+theorem tracker_rpl_unset_iff (recs : List (List (Int × Int))) (h : ∀ ls ∈ recs, ∀ l ∈ ls, 0 ≤ l.2) :
+    (run {} (events recs)).rpl = -1 ↔ allPairs (recs.map (·.map Prod.snd)) = [] := by
+  rw [run_rpl_closed recs {} h]
+  refine feed_unset_eq_unset _ (allPairs_nonneg _ ?_)
+  intro ds hds d hd
+  obtain ⟨ls, hls, rfl⟩ := List.mem_map.mp hds
+  obtain ⟨l, hl, rfl⟩ := List.mem_map.mp hd
+  exact h ls hls l hl
+
+/-- **Non-final lines (full strength, every record, every line):** `rpl = p > 0` ⇒ every terminated line that is followed by another
+    terminated line of its record has exactly `p` residues. This is the `FullLines` hypothesis of the reverse-window theorems for every
+    window whose start lies on a line the record really has. -/
+theorem tracker_nonfinal_lines_have_rpl (recs : List (List (Int × Int))) (p : Int) (hp : 0 < p) (h : ∀ ls ∈ recs, ∀ l ∈ ls, 0 ≤ l.2)
+    (hr : (run {} (events recs)).rpl = p) : ∀ ls ∈ recs, ∀ r ∈ (ls.map Prod.snd).dropLast, r = p := by
+  obtain ⟨q, rest, he, hq, hrest⟩ := (tracker_rpl_iff recs p hp h).mp hr
+  have hall : ∀ x ∈ allPairs (recs.map (·.map Prod.snd)), x.1 = p := by
+    intro x hx; rw [he] at hx
+    rcases List.mem_cons.mp hx with rfl | hx
+    · exact hq
+    · exact (hrest x hx).1
+  intro ls hls r hr'
+  exact (allPairs_fst_iff _ p).mp hall (ls.map Prod.snd) (List.mem_map.mpr ⟨ls, hls, rfl⟩) r hr'
+
+/-- **Last lines:** `rpl = p > 0` ⇒ a record with ≥ 2 terminated lines that comes after another record with ≥ 2 terminated lines ends in a
+    line of at most `p` residues (so residue `start` lies on line `(start−1)/p` there). -/
+theorem tracker_last_line_le_rpl (pre post : List (List (Int × Int))) (ls : List (Int × Int)) (p : Int) (hp : 0 < p)
+    (h : ∀ x ∈ pre ++ ls :: post, ∀ l ∈ x, 0 ≤ l.2) (hpre : ∃ x ∈ pre, 2 ≤ x.length) (h2 : 2 ≤ ls.length)
+    (hne : ls.map Prod.snd ≠ []) (hr : (run {} (events (pre ++ ls :: post))).rpl = p) :
+    (ls.map Prod.snd).getLast hne ≤ p := by
+  rw [run_rpl_closed _ {} h] at hr
+  have e : (pre ++ ls :: post).map (·.map Prod.snd) = pre.map (·.map Prod.snd) ++ ls.map Prod.snd :: post.map (·.map Prod.snd) := by simp
+  rw [e] at hr
+  refine last_line_le _ _ _ p hp ?_ ?_ (by simpa using h2) hne hr
+  · rw [← e]; intro ds hds d hd
+    obtain ⟨x, hx, rfl⟩ := List.mem_map.mp hds
+    obtain ⟨l, hl, rfl⟩ := List.mem_map.mp hd
+    exact h x hx l hl
+  · obtain ⟨x, hx, hx2⟩ := hpre
+    exact ⟨x.map Prod.snd, List.mem_map.mpr ⟨x, hx, rfl⟩, by simpa using hx2⟩
+
+/-- the two exceptions are real (and are the only ones, by `tracker_rpl_iff`): a one-line record longer than `rpl`
+    (`>A\nACGT\nAC\n>B\nACGTAC\n`: rpl = 4, bpl = 5 kept, B's line has 6), and the line at which `rpl` is initialised
+    (`>A\nAC\nACGT\n`: rpl = 2 kept, the last line has 4) -/
+theorem tracker_exceptions_are_real :
+    ((run {} (events [[(5, 4), (3, 2)], [(7, 6)]])).rpl = 4 ∧ (run {} (events [[(5, 4), (3, 2)], [(7, 6)]])).bpl = 5) ∧
+    ((run {} (events [[(3, 2), (5, 4)]])).rpl = 2 ∧ (run {} (events [[(3, 2), (5, 4)]])).bpl = 3) := by decide
+
+/-- non-vacuity: `>A\nACGT\nACGT\nAC\n>B\nACGT\nA\n` ends with rpl = 4, bpl = 5; its pairs are (4,4), (4,2), (4,1) -/
+example : (run {} (events [[(5, 4), (5, 4), (3, 2)], [(5, 4), (2, 1)]])).rpl = 4 ∧
+    allPairs ([[(5, 4), (5, 4), (3, 2)], [(5, 4), (2, 1)]].map (·.map Prod.snd)) = [(4, 4), (4, 2), (4, 1)] := by decide
+
+end tracker
 
 end EaselModel.Props.C04
